@@ -781,6 +781,10 @@ def _pfr_extras(ctx, ad, inst, cfg: dict, default: bool):
     ok, sealed = _try(ctx, ad, inst, "export-seal", ad.export, x, add_seal=True)
     if not ok:
         return
+    ok, sealed_again = _try(ctx, ad, inst, "export-seal", ad.export, x, add_seal=True)
+    if ok and sealed_again != sealed:
+        _viol(ctx, ad, inst, "sealed-export-of-the-same-object-differs-the-second-time", {"diff": _first_diff(sealed, sealed_again)})
+        return
     cls = ad._cls(inst)  # pylint: disable=protected-access
     start_uid = A._db_get(inst["family"], inst["revision"], cls.FEATURE_NAME, [inst["sub"], "seal_start"], "")  # pylint: disable=protected-access
     count = A._db_get(inst["family"], inst["revision"], cls.FEATURE_NAME, [inst["sub"], "seal_count"], 0)  # pylint: disable=protected-access
@@ -901,6 +905,28 @@ def _pfr_partial(ctx, ad, inst, cfg: dict, expect: list[dict], rng):
                 if _inverse_ok(method, word) is False:
                     _viol(ctx, ad, inst, "computed-inverse-wrong", {"register": name, "method": method, "word": hex(word),
                                                                     "registers_given": len(keep), "partial": True})
+        # the SAME object is configured a second time (an in-field update: parse / load, then set other values): the
+        # computed fields follow the values the registers hold now, nothing of the earlier inverse may stay behind
+        given2 = [n for n in comp_regs if n in keep and isinstance(settings.get(n), dict)]
+        if given2 and hasattr(x, "set_config"):
+            settings2, expect2 = _draw(ad.registers(ad.fresh(inst)), rng, "random", 0, ad.frozen_fields(inst))
+            second = {n: settings2[n] for n in given2 if isinstance(settings2.get(n), dict)}
+            if second:
+                ok, _ = _try(ctx, ad, inst, "second-set_config", x.set_config, copy.deepcopy(second))
+                if ok:
+                    ok, data2 = _try(ctx, ad, inst, "export", ad.export, x)
+                if ok:
+                    ctx.count("second_configurations_on_one_object")
+                    _api_value_law(ctx, ad, inst, ad.registers(x), [e for e in expect2 if e["reg"] in second], "on-second-set_config")
+                    for name in second:
+                        reg, fields = comp_regs[name]
+                        word = int.from_bytes(data2[reg.offset: reg.offset + 4], "little")
+                        for bf_uid, method in fields.items():
+                            if reg.get_bitfield(bf_uid).name in second[name]:
+                                continue
+                            if _inverse_ok(method, word) is False:
+                                _viol(ctx, ad, inst, "computed-inverse-wrong", {"register": name, "method": method, "word": hex(word),
+                                                                                "after": "second set_config on the same object"})
 
 
 # ------------------------------------------------------------------------------------------
